@@ -1,3 +1,321 @@
-import GambitV.Spec.Taxonomy
+import GambitV.Lemmas.Consensus
+
+/-!
+# C10 — strict mode: the consensus of the matched taxa
+
+`consensus_taxon` (after the repair) on root-first paths: the fold over the matched taxa in the order
+the code meets them computes the order-free specification `consensusSpec` ("the most specific one if
+they lie on a single lineage, otherwise the lowest common ancestor of the most specific ones, and no
+taxon if they share no ancestor").  Helper lemmas (the fold invariant) live in `Lemmas/Consensus.lean`.
+All theorems quantify over arbitrary lists of non-empty paths; duplicates in `T` are allowed.
+-/
 namespace GambitV.C10
+open GambitV
+
+/-! ### 1. The fold meets the specification -/
+
+/-- 1. The consensus computed by the merge loop is the specified one, whatever the order. -/
+theorem consensus_eq_spec (T : List (List Nat)) (hne : ∀ t ∈ T, t ≠ []) :
+    (consensusPaths T).1 = consensusSpec T := by
+  cases h : (consensusPaths T).1 with
+  | some c =>
+    obtain ⟨split, hi⟩ := consensusPaths_inv T hne c h
+    exact (consensusSpec_of_inv hi).symm
+  | none =>
+    by_cases hT : T = []
+    · subst hT; rfl
+    · obtain ⟨a, ha, b, hb, hab⟩ := consensusPaths_none T hne hT h
+      exact (consensusSpec_none_of_heads ha hb (hne a ha) (hne b hb) hab).symm
+
+/-! ### 2. Order independence -/
+
+/-- 2. The predicted taxon never depends on the order of the reference genomes. -/
+theorem consensus_perm (T₁ T₂ : List (List Nat)) (hne : ∀ t ∈ T₁, t ≠ []) (h : T₁.Perm T₂) :
+    (consensusPaths T₁).1 = (consensusPaths T₂).1 := by
+  rw [consensus_eq_spec T₁ hne, consensus_eq_spec T₂ (fun t ht => hne t (h.mem_iff.2 ht))]
+  exact consensusSpec_congr (fun x => h.mem_iff)
+
+/-- 2'. Stronger: only the *set* of matched taxa matters (multiplicities are irrelevant too). -/
+theorem consensus_set (T₁ T₂ : List (List Nat)) (hne : ∀ t ∈ T₁, t ≠ [])
+    (h : ∀ x, x ∈ T₁ ↔ x ∈ T₂) : (consensusPaths T₁).1 = (consensusPaths T₂).1 := by
+  rw [consensus_eq_spec T₁ hne, consensus_eq_spec T₂ (fun t ht => hne t ((h t).2 ht))]
+  exact consensusSpec_congr h
+
+/-- 2b. The taxa named in the warning do not depend on the order either. -/
+theorem others_perm (T₁ T₂ : List (List Nat)) (hne : ∀ t ∈ T₁, t ≠ []) (h : T₁.Perm T₂) :
+    ∀ x, x ∈ (consensusPaths T₁).2 ↔ x ∈ (consensusPaths T₂).2 := by
+  intro x
+  rw [consensusPaths_snd T₁, consensusPaths_snd T₂, ← consensus_perm T₁ T₂ hne h]
+  cases (consensusPaths T₁).1 with
+  | none => exact h.mem_iff
+  | some c => simp only [List.mem_filter, h.mem_iff]
+
+/-! ### 4. The prediction is on the lineage of, or above, every matched taxon -/
+
+/-- 4. The predicted taxon is equal to, an ancestor of, or a descendant of every matched taxon. -/
+theorem consensus_comparable (T : List (List Nat)) (hne : ∀ t ∈ T, t ≠ []) (c : List Nat) :
+    (consensusPaths T).1 = some c → ∀ t ∈ T, isPrefix t c = true ∨ isPrefix c t = true := by
+  intro h t ht
+  obtain ⟨split, hi⟩ := consensusPaths_inv T hne c h
+  rw [isPrefix_iff, isPrefix_iff]
+  exact hi.comp t ht
+
+/-- 4b. The prediction is never empty and is an ancestor-or-self of some matched taxon. -/
+theorem consensus_above_some (T : List (List Nat)) (hne : ∀ t ∈ T, t ≠ []) (c : List Nat) :
+    (consensusPaths T).1 = some c → c ≠ [] ∧ ∃ t ∈ T, isPrefix c t = true := by
+  intro h
+  obtain ⟨split, hi⟩ := consensusPaths_inv T hne c h
+  obtain ⟨t, ht, hct⟩ := hi.below
+  exact ⟨hi.ne, t, ht, (isPrefix_iff _ _).2 hct⟩
+
+/-- a matched taxon is not at-or-above the prediction iff it lies strictly below it -/
+theorem not_above_iff_below (T : List (List Nat)) (hne : ∀ t ∈ T, t ≠ []) (c : List Nat)
+    (h : (consensusPaths T).1 = some c) (t : List Nat) (ht : t ∈ T) :
+    (!isPrefix t c) = true ↔ properPrefix c t = true := by
+  rw [Bool.not_eq_true', isPrefix_false_iff, properPrefix_iff]
+  constructor
+  · intro hn
+    rcases consensus_comparable T hne c h t ht with h1 | h1
+    · exact absurd ((isPrefix_iff _ _).1 h1) hn
+    · rw [isPrefix_iff] at h1
+      refine ⟨h1, Nat.lt_of_le_of_ne h1.length_le (fun hl => hn ?_)⟩
+      rw [h1.eq_of_length hl]
+      exact List.prefix_rfl
+  · rintro ⟨_, hl⟩ htc
+    have := htc.length_le
+    omega
+
+/-! ### 5. Failure -/
+
+/-- 5. "Matched taxa have no common ancestor" is raised exactly when two matched taxa lie in
+different trees (an empty input never reaches `consensus_taxon`). -/
+theorem fail_iff (T : List (List Nat)) (hne : ∀ t ∈ T, t ≠ []) :
+    (consensusPaths T).1 = none ↔ T = [] ∨ ∃ s ∈ T, ∃ t ∈ T, s.head? ≠ t.head? := by
+  constructor
+  · intro h
+    by_cases hT : T = []
+    · exact Or.inl hT
+    · exact Or.inr (consensusPaths_none T hne hT h)
+  · rintro (rfl | ⟨s, hs, t, ht, hst⟩)
+    · rfl
+    · rw [consensus_eq_spec T hne]
+      exact consensusSpec_none_of_heads hs ht (hne s hs) (hne t ht) hst
+
+/-! ### 3. The warning list -/
+
+/-- 3. The taxa named in the inconsistency warning are the specified ones. -/
+theorem others_eq_spec (T : List (List Nat)) (hne : ∀ t ∈ T, t ≠ []) :
+    ∀ x, x ∈ (consensusPaths T).2 ↔ x ∈ othersSpec T := by
+  intro x
+  unfold othersSpec
+  rw [consensusPaths_snd T, ← consensus_eq_spec T hne]
+  cases h : (consensusPaths T).1 with
+  | none => exact Iff.rfl
+  | some c =>
+    simp only [List.mem_filter]
+    constructor
+    · rintro ⟨hx, hp⟩
+      exact ⟨hx, (not_above_iff_below T hne c h x hx).1 hp⟩
+    · rintro ⟨hx, hp⟩
+      exact ⟨hx, (not_above_iff_below T hne c h x hx).2 hp⟩
+
+/-! ### 6. A single lineage -/
+
+/-- 6. All matched taxa on one lineage: the most specific one is predicted, without a warning. -/
+theorem chain_case (T : List (List Nat)) (hne : ∀ t ∈ T, t ≠ []) (hT : T ≠ [])
+    (hchain : ∀ s ∈ T, ∀ t ∈ T, isPrefix s t = true ∨ isPrefix t s = true) :
+    ∃ m ∈ T, (consensusPaths T).1 = some m ∧ (∀ s ∈ T, isPrefix s m = true) ∧
+      (consensusPaths T).2 = [] := by
+  cases h : (consensusPaths T).1 with
+  | none =>
+    exfalso
+    rcases (fail_iff T hne).1 h with h0 | ⟨s, hs, t, ht, hst⟩
+    · exact hT h0
+    · apply hst
+      rcases hchain s hs t ht with h1 | h1
+      · exact (head?_eq_of_prefix ((isPrefix_iff _ _).1 h1) (hne s hs)).symm
+      · exact head?_eq_of_prefix ((isPrefix_iff _ _).1 h1) (hne t ht)
+  | some c =>
+    obtain ⟨split, hi⟩ := consensusPaths_inv T hne c h
+    cases hsp : split with
+    | true =>
+      exfalso
+      obtain ⟨s₁, h₁, s₂, h₂, x₁, x₂, hx, ha, hb⟩ := hi.fork hsp
+      rcases hchain s₁ h₁ s₂ h₂ with h12 | h12
+      · exact fork_absurd hx (ha.trans ((isPrefix_iff _ _).1 h12)) hb
+      · exact fork_absurd hx ha (hb.trans ((isPrefix_iff _ _).1 h12))
+    | false =>
+      obtain ⟨hc, hall⟩ := hi.nosplit hsp
+      refine ⟨c, hc, rfl, fun s hs => (isPrefix_iff _ _).2 (hall s hs), ?_⟩
+      rw [consensusPaths_snd T, h]
+      simp only [List.filter_eq_nil_iff, Bool.not_eq_true', Bool.not_eq_false]
+      exact fun s hs => (isPrefix_iff _ _).2 (hall s hs)
+
+/-! ### 7. When the warning is raised -/
+
+/-- 7. With a prediction `c`, the inconsistency warning is raised exactly when some matched taxon
+lies strictly below `c`. -/
+theorem warning_iff (T : List (List Nat)) (hne : ∀ t ∈ T, t ≠ []) (c : List Nat)
+    (h : (consensusPaths T).1 = some c) :
+    (consensusPaths T).2 ≠ [] ↔ ∃ t ∈ T, properPrefix c t = true := by
+  rw [Ne, consensusPaths_snd T, h]
+  simp only [List.filter_eq_nil_iff, Classical.not_forall]
+  constructor
+  · rintro ⟨t, ht, hp⟩
+    exact ⟨t, ht, (not_above_iff_below T hne c h t ht).1 (by simpa using hp)⟩
+  · rintro ⟨t, ht, hp⟩
+    exact ⟨t, ht, by simpa using (not_above_iff_below T hne c h t ht).2 hp⟩
+
+/-- 7b. Without a prediction every matched taxon is named. -/
+theorem others_of_fail (T : List (List Nat)) (h : (consensusPaths T).1 = none) :
+    (consensusPaths T).2 = T := by
+  rw [consensusPaths_snd T, h]
+
+/-! ### 8. Why the repair was needed -/
+
+/-- 8. The unrepaired loop depends on the order: on three sibling taxa under `0` it predicts
+whichever sibling comes last (and never their parent). -/
+theorem consensusOld_order_dependent :
+    consensusOld [[0, 1], [0, 2], [0, 3]] = some [0, 3] ∧
+    consensusOld [[0, 1], [0, 3], [0, 2]] = some [0, 2] ∧
+    consensusOld [[0, 2], [0, 3], [0, 1]] = some [0, 1] ∧
+    consensusOld [[0, 1], [0, 2], [0, 3]] ≠ consensusOld [[0, 1], [0, 3], [0, 2]] := by
+  decide
+
+/-- 8b. The repaired loop gives the parent on all six orders of three siblings. -/
+theorem consensusPaths_siblings :
+    (consensusPaths [[0, 1], [0, 2], [0, 3]]).1 = some [0] ∧
+    (consensusPaths [[0, 1], [0, 3], [0, 2]]).1 = some [0] ∧
+    (consensusPaths [[0, 2], [0, 1], [0, 3]]).1 = some [0] ∧
+    (consensusPaths [[0, 2], [0, 3], [0, 1]]).1 = some [0] ∧
+    (consensusPaths [[0, 3], [0, 1], [0, 2]]).1 = some [0] ∧
+    (consensusPaths [[0, 3], [0, 2], [0, 1]]).1 = some [0] := by
+  decide
+
+/-! ### 9. The whole strict-mode statement -/
+
+/-- 3'. Stronger form of 3: the two lists are equal (same taxa, same order, same multiplicities). -/
+theorem others_eq_spec_list (T : List (List Nat)) (hne : ∀ t ∈ T, t ≠ []) :
+    (consensusPaths T).2 = othersSpec T := by
+  unfold othersSpec
+  rw [consensusPaths_snd T, ← consensus_eq_spec T hne]
+  cases h : (consensusPaths T).1 with
+  | none => rfl
+  | some c =>
+    apply List.filter_congr
+    intro x hx
+    rw [Bool.eq_iff_iff]
+    exact not_above_iff_below T hne c h x hx
+
+/-- 9. `classify(…, strict=True)` meets the strict-mode statement `strictOk` on every forest (no
+well-formedness assumption on `F` is needed: parent pointers may even be cyclic), every assignment
+of genomes to taxa and every non-empty distance list.  (`_hlen` is not used by the proof.) -/
+theorem classifyStrict_ok (F : Forest) (gtax ds : List Nat) (h : ds ≠ [])
+    (_hlen : gtax.length = ds.length) :
+    let r := classifyStrict F gtax ds
+    strictOk F gtax ds r.success r.predicted r.primary r.closest r.warnInconsistent r.failed = true := by
+  intro r
+  obtain ⟨ha1, ha2, _⟩ := argminFirst_getD_spec ds h
+  cases hE : (findMatches F gtax ds).isEmpty with
+  | true =>
+    have hr : r = _ := classifyStrict_empty F gtax ds hE
+    have hnil : findMatches F gtax ds = [] := List.isEmpty_iff.1 hE
+    have htaxa : [] = dedup ((matchedSpec F gtax ds).filterMap id) := by
+      rw [← findMatches_fst, hnil]; rfl
+    rw [hr]
+    exact strictOk_intro F gtax ds _ _ _ _ _ _ ha1 ha2 [] htaxa none rfl rfl rfl rfl (Or.inr rfl) rfl
+  | false =>
+    have hr : r = _ := classifyStrict_nonempty F gtax ds hE
+    rw [hr]
+    have htaxa := findMatches_fst F gtax ds
+    have hne := findMatches_path_ne_nil F gtax ds
+    have hspec := consensus_eq_spec _ hne
+    have hoth := others_eq_spec_list _ hne
+    have hnonempty : ((findMatches F gtax ds).map (·.1)).isEmpty = false := by
+      cases hm : findMatches F gtax ds with
+      | nil => rw [hm] at hE; cases hE
+      | cons e l => rfl
+    dsimp only
+    cases hc : (consensusPaths (((findMatches F gtax ds).map (·.1)).map F.path)).1 with
+    | none =>
+      refine strictOk_intro F gtax ds _ _ _ _ _ _ ha1 ha2 _ htaxa none (hc ▸ hspec) rfl ?_ rfl
+        (Or.inl rfl) rfl
+      rw [hnonempty]; rfl
+    | some cp =>
+      obtain ⟨split, hi⟩ := consensusPaths_inv _ hne cp hc
+      obtain ⟨p, hp, hpick, hmin⟩ := pick_spec ds _ (cands_ne_nil F gtax ds cp hi.below)
+      obtain ⟨hp1, hp2⟩ := (mem_cands F gtax ds cp p).1 hp
+      refine strictOk_intro F gtax ds _ _ _ _ _ _ ha1 ha2 _ htaxa (some cp) (hc ▸ hspec) rfl ?_ rfl
+        (Or.inr ?_) ⟨p, hpick, hp1, hp2, ?_⟩
+      · simp
+      · rw [hoth]
+      · intro i hi1 t ht hpre
+        exact hmin i ((mem_cands F gtax ds cp i).2 ⟨hi1, t, ht, hpre⟩)
+
+/-! ### Non-vacuity: the hypotheses are satisfiable and every branch of the loop is exercised -/
+section Examples
+
+-- the standing hypothesis holds on the examples below
+example : ∀ t ∈ [[0, 1], [0, 1, 2], [0]], t ≠ [] := by decide
+
+-- a single lineage (hypotheses of `chain_case`), given out of order: most specific one, no warning
+example : ∀ s ∈ [[0, 1], [0, 1, 2], [0]], ∀ t ∈ [[0, 1], [0, 1, 2], [0]],
+    isPrefix s t = true ∨ isPrefix t s = true := by decide
+example : consensusPaths [[0, 1], [0, 1, 2], [0]] = (some [0, 1, 2], []) := by decide
+example : consensusSpec [[0, 1], [0, 1, 2], [0]] = some [0, 1, 2] := by decide
+
+-- a fork below the root, then a descendant of one branch and an ancestor of the fork:
+-- every succeeding branch of `consensusStep` is taken; the warning names the taxa below the fork
+example : consensusPaths [[0, 1, 2], [0, 1, 3], [0, 1, 3, 4], [0]] =
+    (some [0, 1], [[0, 1, 2], [0, 1, 3], [0, 1, 3, 4]]) := by decide
+example : consensusSpec [[0, 1, 2], [0, 1, 3], [0, 1, 3, 4], [0]] = some [0, 1] := by decide
+example : othersSpec [[0, 1, 2], [0, 1, 3], [0, 1, 3, 4], [0]] =
+    [[0, 1, 2], [0, 1, 3], [0, 1, 3, 4]] := by decide
+example : maximalPaths [[0, 1, 2], [0, 1, 3], [0, 1, 3, 4], [0]] = [[0, 1, 2], [0, 1, 3, 4]] := by decide
+-- the same set in another order (hypothesis of `consensus_perm`), with a duplicate for `consensus_set`
+example : [[0, 1, 2], [0, 1, 3], [0, 1, 3, 4], [0]].Perm [[0], [0, 1, 3, 4], [0, 1, 2], [0, 1, 3]] := by
+  decide
+example : (consensusPaths [[0], [0, 1, 3, 4], [0, 1, 2], [0, 1, 3]]).1 = some [0, 1] := by decide
+example : (consensusPaths [[0], [0, 1, 3, 4], [0], [0, 1, 2], [0, 1, 3], [0, 1, 2]]).1 = some [0, 1] := by
+  decide
+-- `warning_iff`: both sides hold here, and both fail on the single lineage above
+example : ∃ t ∈ [[0, 1, 2], [0, 1, 3], [0, 1, 3, 4], [0]], properPrefix [0, 1] t = true := by decide
+example : ¬ ∃ t ∈ [[0, 1], [0, 1, 2], [0]], properPrefix [0, 1, 2] t = true := by decide
+
+-- failure: taxa in two trees (right-hand side of `fail_iff`), everything is named
+example : ∃ s ∈ [[0, 1], [0, 2], [5, 6]], ∃ t ∈ [[0, 1], [0, 2], [5, 6]], s.head? ≠ t.head? := by decide
+example : consensusPaths [[0, 1], [0, 2], [5, 6]] = (none, [[0, 1], [0, 2], [5, 6]]) := by decide
+example : consensusSpec [[0, 1], [0, 2], [5, 6]] = none := by decide
+-- success: all roots agree
+example : ¬ ∃ s ∈ [[0, 1], [0, 2]], ∃ t ∈ [[0, 1], [0, 2]], s.head? ≠ t.head? := by decide
+
+-- the hypothesis `hne` is needed: with an empty path the loop and the specification part ways
+example : (consensusPaths [[], [0]]).1 = none ∧ consensusSpec [[], [0]] = some [0] := by decide
+
+-- strict mode end to end: trees `0 → 1 → {2, 3}` and `4`; genomes of taxa 2, 3, 4 at distances
+-- 5, 7, 200: the first two match their own species, the third matches nothing; prediction = node 1,
+-- warning names 2 and 3, primary match = genome 0 (hypotheses of `classifyStrict_ok` hold)
+def exF : Forest :=
+  { parent := [none, some 0, some 1, some 1, none],
+    thr := [some 100, some 50, some 10, some 10, some 10],
+    report := [true, true, true, true, true] }
+example : [5, 7, 200] ≠ [] ∧ [2, 3, 4].length = [5, 7, 200].length := by decide
+example : findMatches exF [2, 3, 4] [5, 7, 200] = [(2, [0]), (3, [1])] := by decide
+example : classifyStrict exF [2, 3, 4] [5, 7, 200] =
+    { success := true, predicted := some 1, primary := some 0, closest := 0, next := none,
+      warnInconsistent := [2, 3], warnNotClosest := false, failed := false } := by decide
+example : strictOk exF [2, 3, 4] [5, 7, 200] true (some 1) (some 0) 0 [2, 3] false = true := by decide
+-- `strictOk` is not trivially true: a wrong prediction or a wrong primary match is rejected
+example : strictOk exF [2, 3, 4] [5, 7, 200] true (some 2) (some 0) 0 [2, 3] false = false := by decide
+example : strictOk exF [2, 3, 4] [5, 7, 200] true (some 1) (some 1) 0 [2, 3] false = false := by decide
+-- two trees matched: failure
+example : classifyStrict exF [2, 4] [5, 7] =
+    { success := false, predicted := none, primary := none, closest := 0, next := none,
+      warnInconsistent := [2, 4], warnNotClosest := false, failed := true } := by decide
+-- nothing matched
+example : (classifyStrict exF [2, 4] [500, 700]).predicted = none ∧
+    (classifyStrict exF [2, 4] [500, 700]).success = true := by decide
+
+end Examples
+
 end GambitV.C10
